@@ -28,6 +28,10 @@ pub async fn scenario(w: World, h: Hist, trace: bool) -> Outcome {
         }
     };
     let sim = env.sim.clone();
+    if trace && std::env::var("RC_NETLOG").is_ok() {
+        w.net.enable_sent_log(100000, false);
+        w.net.take_sent_log();
+    }
     let st = |w: usize| cfg.strengths.get(w).copied().unwrap_or(0);
     let d_ns = cfg.deadline_ms * MS;
     let mut live: BTreeMap<u32, Live> = BTreeMap::new();
@@ -46,7 +50,7 @@ pub async fn scenario(w: World, h: Hist, trace: bool) -> Outcome {
     'ops: for (oi, op) in h.ops.iter().enumerate() {
         out.ops_executed = oi + 1;
         if trace {
-            out.trace.push(format!("#{oi} {}", op.encode()));
+            out.trace.push(format!("#{oi} {}   (at +{} ms)", op.encode(), (sim.now() - EPOCH_NS) / MS));
         }
         shape = vcore::mix(shape, vcore::fnv_str(&op.shape()));
         match op {
@@ -135,6 +139,12 @@ pub async fn scenario(w: World, h: Hist, trace: bool) -> Outcome {
             }
         }
         sim.sleep(2 * MS).await;
+        if trace && std::env::var("RC_NETLOG").is_ok() {
+            for r in w.net.take_sent_log().iter().rev().take(400).rev() {
+                out.trace.push(format!("      net {}us {}->{:?} {}", (r.at_ns - EPOCH_NS) / 1000, r.src, r.dsts, r.summary));
+            }
+            out.trace.push(format!("      now {}us counters {:?}", (sim.now() - EPOCH_NS) / 1000, w.net.counters()));
+        }
         // ---- observe
         let Some(res) = do_read(&env, &handles, &all).await else {
             out.inconclusive = Some(format!("read after op #{oi} did not return"));
@@ -144,6 +154,11 @@ pub async fn scenario(w: World, h: Hist, trace: bool) -> Outcome {
             out.trace.push(format!("   -> {}", obs_str(&res)));
         }
         out.stat("reader_ops", 1);
+        if trace && std::env::var("RC_NETLOG").is_ok() && res.is_err() {
+            sim.sleep(1000 * MS).await;
+            let r2 = do_read(&env, &handles, &all).await;
+            out.trace.push(format!("      DEBUG after 1 s more: {:?}", r2.map(|r| obs_str(&r))));
+        }
         let obs: Vec<Obs> = res.unwrap_or_default();
         let of_inst: Vec<&Obs> = obs.iter().filter(|o| handles.get(&key) == Some(&o.handle)).collect();
         let state_now = of_inst.first().map(|o| (o.ist, of_inst.iter().filter(|o| !o.valid).count()));
